@@ -257,6 +257,23 @@ fn eval_dim(b: &[u8], drv: &mut Driver, mode: &str) -> Outcome {
     out.nontrivial = exp.is_some();
     out.counters.push(format!("dim.{}", if exp.is_some() { "wellformed" } else { imp.split(' ').next().unwrap_or("?") }));
     judge(&mut out, "dim", &imp, &model, exp.as_deref());
+    // the Lean encoder `renderRef`/`renderRef2` (the one the theorems quantify over) must produce exactly the
+    // canonical upper-case text of the same rectangle
+    if let Some(e) = &exp {
+        if !b.iter().any(|c| c.is_ascii_lowercase()) {
+            let nums = e.trim_start_matches("ok ").replace(',', " ");
+            let single = !b.contains(&b':');
+            let v: Vec<u32> = nums.split(' ').map(|x| x.parse().unwrap()).collect();
+            let canonical = ref_text([v[0], v[1], v[2], v[3]], !single, false).into_bytes() == b;
+            let rendered = if canonical { drv.ask(&format!("render {nums} {}", if single { 0 } else { 1 })) } else { hex(b) };
+            if rendered != hex(b) {
+                fail(&mut out, "model_vs_spec", "dim.render", &hex(b), &rendered, e);
+            }
+            if canonical {
+                out.counters.push("dim.render_checked".into());
+            }
+        }
+    }
     out
 }
 
